@@ -55,7 +55,7 @@ def unwrap_objid(objid):
     unwrap.skyversion = np.bitwise_and(tempobjid >> 59, 2 ** 4 - 1)
     unwrap.rerun = np.bitwise_and(tempobjid >> 48, 2 ** 11 - 1)
     unwrap.run = np.bitwise_and(tempobjid >> 32, 2 ** 16 - 1)
-    unwrap.camcol = np.bitwise_and(tempobjid >> 29, 2 ** 2 - 1)
+    unwrap.camcol = np.bitwise_and(tempobjid >> 29, 2 ** 3 - 1)
     unwrap.firstfield = np.bitwise_and(tempobjid >> 28, 2 ** 1 - 1)
     unwrap.frame = np.bitwise_and(tempobjid >> 16, 2 ** 12 - 1)
     unwrap.id = np.bitwise_and(tempobjid, 2 ** 16 - 1)
